@@ -241,6 +241,12 @@ def generate(rng, *, n_inputs=None, n_statements=None, rows=None, viral=None, ti
                 expr = "%s(%s over (partition by Id_1 order by %s%s))" % (fn, a, order, window)
             reads = [a]
             shape = "S" if fn not in ("count",) else "X"
+        elif r < 0.945 and fam.has_tp and not fam.has_at and not fam.viral:
+            # time-series operators: the result per series depends on the order of the periods, never on row order
+            fn = rng.choice(["flow_to_stock(%s)", "stock_to_flow(%s)", "timeshift(%s, 1)", "timeshift(%s, -1)", "fill_time_series(%s, all)", "fill_time_series(%s, single)"])
+            expr = fn % a
+            reads = [a]
+            shape = "X" if "fill" in fn else "S"
         elif r < 0.96 and allow_dpr:
             used_dpr = True
             expr = "check_datapoint(%s, dpr_1%s)" % (a, rng.choice(["", " all", " invalid"]))
